@@ -12,8 +12,22 @@ if ! cargo build --release --offline >/tmp/walrus-verif-build.$$.log 2>&1; then
   exit 2
 fi
 rm -f /tmp/walrus-verif-build.$$.log
+bin=./target/release/walrus-verif
+if [ "$id" = "C09" ]; then
+  # C09 compares the serial build with a second build of the harness that
+  # links walrus with its `parallel` feature
+  if ! cargo build --release --offline --features parallel --target-dir target-par >/tmp/walrus-verif-build.$$.log 2>&1; then
+    echo "parallel harness build failed" >&2
+    tail -30 /tmp/walrus-verif-build.$$.log >&2
+    rm -f /tmp/walrus-verif-build.$$.log
+    exit 2
+  fi
+  rm -f /tmp/walrus-verif-build.$$.log
+  export WALRUS_VERIF_SERIAL="$PWD/target/release/walrus-verif"
+  bin=./target-par/release/walrus-verif
+fi
 case "$1" in
-  --replay) exec ./target/release/walrus-verif check "$id" --replay "$2" ;;
-  thorough) exec ./target/release/walrus-verif check "$id" --tier thorough ;;
-  *) exec ./target/release/walrus-verif check "$id" --tier quick ;;
+  --replay) exec $bin check "$id" --replay "$2" ;;
+  thorough) exec $bin check "$id" --tier thorough ;;
+  *) exec $bin check "$id" --tier quick ;;
 esac
